@@ -152,6 +152,8 @@ pub struct Shared {
     pub replay_errors: u64,
     /// (snap id, node) -> set/store disagreements found (empty = agree)
     pub snapshots: BTreeMap<(usize, u8), Vec<String>>,
+    /// (snap id, node) -> where reads through the store handle differ from the node's store rows
+    pub read_diffs: BTreeMap<(usize, u8), Vec<String>>,
     pub up: BTreeSet<u8>,
     /// host each node id currently runs on (a node can move to its alternative address)
     pub cur_host: BTreeMap<u8, String>,
@@ -221,6 +223,7 @@ impl<'a> Cluster<'a> {
             replays_sent: 0,
             replay_errors: 0,
             snapshots: BTreeMap::new(),
+            read_diffs: BTreeMap::new(),
             up: BTreeSet::new(),
             cur_host: cfg.nodes.iter().map(|n| (n.id, host_name(n.id))).collect(),
             member_rx: BTreeMap::new(),
@@ -530,6 +533,53 @@ async fn command_loop(sh: SharedRef, id: u8, store: EventuallyConsistentStore<Si
                             Err(e) => diffs.push(format!("keyspace {ks}: serialize failed: {e}")),
                         }
                     }
+                    // reads through the public handle: get, get_many, iter_metadata, get_keyspace_list
+                    let mut rdiffs = Vec::new();
+                    let listed = h.get_keyspace_list().await.unwrap_or_default();
+                    for ks in store.keyspace_names() {
+                        if !listed.contains(&ks) {
+                            rdiffs.push(format!("get_keyspace_list omits {ks}"));
+                        }
+                        let rows: Vec<(u64, HLCTimestamp, Option<Vec<u8>>)> = store.st.lock().rows.get(&ks).map(|m| m.iter().map(|(k, r)| (*k, r.ts, r.data.clone())).collect()).unwrap_or_default();
+                        let mut meta: Vec<(u64, HLCTimestamp, bool)> = match h.iter_metadata(&ks).await {
+                            Ok(it) => it.collect(),
+                            Err(e) => {
+                                rdiffs.push(format!("keyspace {ks}: iter_metadata failed: {e}"));
+                                continue;
+                            },
+                        };
+                        meta.sort();
+                        let mut want_meta: Vec<(u64, HLCTimestamp, bool)> = rows.iter().map(|(k, t, d)| (*k, *t, d.is_none())).collect();
+                        want_meta.sort();
+                        if meta != want_meta {
+                            rdiffs.push(format!("keyspace {ks}: iter_metadata returns {} entries, the store holds {}", meta.len(), want_meta.len()));
+                        }
+                        let ids: Vec<u64> = rows.iter().map(|(k, _, _)| *k).collect();
+                        let many: BTreeMap<u64, (HLCTimestamp, Vec<u8>)> = match h.get_many(&ks, ids.clone()).await {
+                            Ok(it) => it.map(|d| (d.id(), (d.last_updated(), d.data().to_vec()))).collect(),
+                            Err(e) => {
+                                rdiffs.push(format!("keyspace {ks}: get_many failed: {e}"));
+                                BTreeMap::new()
+                            },
+                        };
+                        for (k, t, d) in &rows {
+                            let one = match h.get(&ks, *k).await {
+                                Ok(o) => o.map(|d| (d.last_updated(), d.data().to_vec())),
+                                Err(e) => {
+                                    rdiffs.push(format!("keyspace {ks} id {k}: get failed: {e}"));
+                                    continue;
+                                },
+                            };
+                            let want = d.as_ref().map(|b| (*t, b.clone()));
+                            if one != want {
+                                rdiffs.push(format!("keyspace {ks} id {k}: get returns {:?}, the store holds {:?}", one.as_ref().map(|(t, b)| (crate::e1::fmt_ts(*t), b.len())), want.as_ref().map(|(t, b)| (crate::e1::fmt_ts(*t), b.len()))));
+                            }
+                            if many.get(k).cloned() != want {
+                                rdiffs.push(format!("keyspace {ks} id {k}: get_many returns {:?}, the store holds {:?}", many.get(k).map(|(t, b)| (crate::e1::fmt_ts(*t), b.len())), want.as_ref().map(|(t, b)| (crate::e1::fmt_ts(*t), b.len()))));
+                            }
+                        }
+                    }
+                    sh.borrow_mut().read_diffs.insert((snap_id, id), rdiffs);
                     sh.borrow_mut().snapshots.insert((snap_id, id), diffs);
                 },
                 Cmd::Op { op_id, spec } => run_op(&sh, id, &h, op_id, spec).await,
